@@ -235,10 +235,10 @@ const fn stream_from_code(code: u8) -> ProcessStream {
     }
 }
 
-/// Verification hook (feature `verif-hooks`): the private capture loop `read_captured_stream` on a
+/// Verification hook (feature `verif-hooks-capture`): the private capture loop `read_captured_stream` on a
 /// caller-supplied reader. The overflow flag is created here with the value `initial_flag`; the
 /// loop's result is returned together with the flag's final value.
-#[cfg(feature = "verif-hooks")]
+#[cfg(feature = "verif-hooks-capture")]
 pub fn verif_read_captured_stream<R: Read>(
     reader: R,
     cap: u32,
